@@ -94,7 +94,8 @@ def select(condlist, choicelist, default=0):
     choicelist = [asarray(choice) for choice in choicelist]
 
     try:
-        intermediate_dtype = result_type(*choicelist)
+        # like np.select, the default takes part in the promotion
+        intermediate_dtype = result_type(*choicelist, default)
     except TypeError as e:
         msg = "Choicelist elements do not have a common dtype."
         raise TypeError(msg) from e
